@@ -26,6 +26,8 @@ type TS struct {
 	readyFn  *types.Func
 	mutators map[*ssa.Function]bool
 	wait     int64
+	// PureDyn marks dynamic calls assumed not to change task statuses (documented predicates).
+	PureDyn func(ci ssa.CallInstruction) bool
 }
 
 type TSite struct {
@@ -240,6 +242,9 @@ func (ts *TS) Analyze(fn *ssa.Function, key ssa.Value, entry uint32) (sites []TS
 					}
 				} else if _, isBuiltin := cc.Value.(*ssa.Builtin); !isBuiltin {
 					mut = true // dynamic call through a function value
+					if ts.PureDyn != nil && ts.PureDyn(ci) {
+						mut = false
+					}
 				}
 				takesKey := isKey(CallRecv(ci))
 				for _, a := range cc.Args {
